@@ -311,10 +311,13 @@ PROP = ["C00"]
 
 def lean_stage(prop: str, modules: list[str], theorems: list[str], tier: str, res: Result) -> dict:
     info: dict = {"modules": modules, "theorems": {}}
-    ok, log = lake_build(modules)
+    # the model driver imports every QModel.*IO module: build the executable models too, so that the driver never runs
+    # against a stale or missing .olean (fresh checkout, or a model edited since the last full build)
+    targets = ["QModel", "QGen", *modules]
+    ok, log = lake_build(targets)
     if not ok:  # a concurrent build or a half-written .olean must not look like a broken theorem: retry once
         time.sleep(2)
-        ok, log = lake_build(modules)
+        ok, log = lake_build(targets)
     info["build_ok"] = ok
     if not ok:
         info["build_log"] = log
